@@ -511,8 +511,7 @@ int main(int argc, char **argv) {
     stat("exhaustive_depth", depth); stat("alphabet", (long long)alpha.size());
 
     // ---- seeded random sequences up to depth 30 over the whole universe
-    // vh::Rng(seed) and vh::Rng(seed+1) are the same splitmix64 stream shifted by one draw; spread the seeds far apart
-    Rng rng(args.seed * 0x2545F4914F6CDD1Dull + 0x9E37ull);
+    Rng rng(args.seed);
     int nrand = thorough ? 40000 : 2500;
     for (int i = 0; i < nrand; i++) {
         int own = rng.below(10) < 8 ? 0 : rng.below(NACC), ownRes = rng.below(4) == 0 ? 1 : 0;
